@@ -33,6 +33,11 @@ def new (s : Nat) : Ring :=
   let n := nextPow2 s
   { size := n, r := 0, w := 0, buf := List.replicate n 0 }
 
+/-- `zix_ring_new(size)`: a size whose rounding wraps to zero (zero itself, and anything above 2^31)
+is refused like an allocation failure; `none` = NULL. -/
+def new? (s : Nat) : Option Ring :=
+  if nextPow2 s = 0 then none else some (new s)
+
 def reset (g : Ring) : Ring := { g with r := 0, w := 0 }
 
 /-- `read_space_internal`: `(w - r) & mask` -/
